@@ -5,7 +5,7 @@ import json, os, subprocess, sys, glob, time
 rows = []
 only = sys.argv[1:]
 LANE = os.environ.get("LANE")          # a scratch copy of /verif: run against a scratch worktree instead of /repo
-WT = "/tmp/mut/ALL"
+WT = os.environ.get("RERUN_WT", "/tmp/mut/ALL")      # several scratch lanes may run side by side, each with its own worktree
 if LANE:
     if not os.path.isdir(WT):
         subprocess.run(["git", "-C", "/repo", "worktree", "add", "--detach", WT, "HEAD"], check=True, stdout=subprocess.DEVNULL)
@@ -40,7 +40,5 @@ for d in sorted(glob.glob("/verif/seeded/*/")):
         print(name, c, kind, r["why"][:100], flush=True)
 if not LANE:
     subprocess.run(["python3", "/verif/translator/gen_tables.py"], stdout=subprocess.DEVNULL)
-with open("/verif/seeded/RESULTS.md", "w") as f:
-    f.write("| seeded change | check | outcome | first line of the report |\n|---|---|---|---|\n")
-    for r in rows:
-        f.write("| %s | %s | %s | %s |\n" % (r[0], r[1], r[2], r[3].replace("|", "\\|")))
+# the table is rebuilt from ALL meta.json files, so partial runs (a subset of names, several lanes) merge into one table
+subprocess.run([sys.executable, "/verif/tools/results_from_meta.py"])
